@@ -100,7 +100,7 @@ def _classes():
 
 
 IDS = ["x", "y", "Pyro.Daemon", "", "relay"]
-_reg = st.tuples(st.just("register"), st.sampled_from([0, 1, 2, 3, 4, 4]), st.sampled_from([None, "x", "x", "x", "y", "Pyro.Daemon", ""]), st.booleans(), st.booleans())
+_reg = st.tuples(st.just("register"), st.sampled_from([0, 1, 2, 3, 4, 4]), st.sampled_from([None, "x", "x", "x", "y", "Pyro.Daemon", "", "a b", "tab\tid"]), st.booleans(), st.booleans())
 step = st.one_of(
     _reg, _reg, _reg,
     st.tuples(st.just("unregister_obj"), st.sampled_from([0, 1, 2, 3, 4])),
@@ -251,6 +251,25 @@ def run_case(case, servertype=None, keep=False):
                 if force and oid == "Pyro.Daemon":
                     continue        # excluded shape
                 if force and oid == "relay":
+                    continue
+                if oid is not None and any(ch.isspace() for ch in oid):
+                    # an id that cannot be part of a uri: whatever register() answers, afterwards the daemon reports and serves exactly
+                    # what it did before (a registration that "failed" must not have happened)
+                    before_ids = set(d.objectsById)
+                    try:
+                        d.register(obj, oid, force=force, weak=wk)
+                        accepted_bad = True
+                    except Exception:       # noqa
+                        accepted_bad = False
+                    if not accepted_bad and set(d.objectsById) != before_ids:
+                        viol("refused-registration-took-effect", "%s raised, but the daemon's table changed: %r -> %r" % (label, sorted(before_ids), sorted(d.objectsById)))
+                        break
+                    if accepted_bad:
+                        # (accepted after all: then it is a registration like any other)
+                        model[oid] = k
+                        marked[k] = oid
+                        weak[oid] = wk
+                    obj = None
                     continue
                 expect_refuse = (not force) and (cur is not None or (oid not in (None, "") and (oid in model or oid in ("Pyro.Daemon", "relay"))))
                 try:
